@@ -24,14 +24,22 @@ def _extra(cd):
         st.just("self"),
         st.sampled_from([b"\x00", b"\xff", b"\x80\x80\x80\x80\x80\x80", b"\x01\x00\x00"]),
     )
-    tz = st.sampled_from([0, 0, 60, -300, 330, 765, -720])
+    tz = st.sampled_from([0, 0, 60, -300, 330, 765, -720, "Europe/Paris", "America/St_Johns", "Australia/Lord_Howe", "Asia/Kathmandu"])
     return st.tuples(tail, tz)
 
 
 def _rezone(x, minutes: int):
     if not minutes:
         return x
-    tz = datetime.timezone(datetime.timedelta(minutes=minutes))
+    if isinstance(minutes, str):  # a named zone with DST rules / an odd offset, when the tz database is present
+        try:
+            import zoneinfo
+
+            tz = zoneinfo.ZoneInfo(minutes)
+        except Exception:
+            return x
+    else:
+        tz = datetime.timezone(datetime.timedelta(minutes=minutes))
 
     def fn(dt):
         try:
